@@ -101,7 +101,21 @@ func c02Body(sc *WF) Verdict {
 			return bad("C02:panic", "run panicked: %s", rr.Panic)
 		}
 		tr := x.snapshot()[rr.Lo:rr.Hi]
-		for _, seg := range segments(tr) {
+		segs := segments(tr)
+		if len(segs) > 0 {
+			// "its outcome replaces the exec outcome": when the fallback itself fails, the run
+			// ends with the fallback's error, not with the last attempt's
+			last := segs[len(segs)-1]
+			if fb := last[len(last)-1]; fb.Phase == "fb" && fb.RetErr != nil {
+				if rr.Err == nil {
+					return bad("C02:fallback-error-lost", "fallback failed with %q but the run succeeded", fb.RetErr)
+				}
+				if m := errMatches(rr.Err, fb.RetErr); m != "" {
+					return bad("C02:fallback-outcome-not-adopted", "the fallback failed with %q, yet the run returned %q: the fallback's outcome must replace the exec outcome (%s)", fb.RetErr, rr.Err, m)
+				}
+			}
+		}
+		for _, seg := range segs {
 			if msg := c02Segment(sc, seg); msg != "" {
 				return bad("C02:retry-fallback", "%s", msg)
 			}
@@ -162,11 +176,11 @@ func enumC02(maxN int, visit func(WF)) int {
 						for a := 0; a <= n; a++ {
 							o := Outcome{Pay: (a + kind) % numPayKinds}
 							if mask&(1<<a) != 0 {
-								o.Err = 1 + (a+mask)%4
+								o.Err = errFlavors[(a+mask)%len(errFlavors)]
 							}
 							s.Exec = append(s.Exec, o)
 						}
-						l := &LeafSpec{Kind: kind, Style: style, N: n, Visits: []VisitScript{s}}
+						l := &LeafSpec{Kind: kind, Style: style, N: n, ErrRes: mask%2 == 1, Visits: []VisitScript{s}}
 						if !l.hasFb() && fb.Err != 0 {
 							continue // the fallback script is irrelevant for kinds without a user fallback
 						}
